@@ -11,7 +11,7 @@ KINDS2_STANDARD = {
     "s": ("S", 0, None, False, None), "p": ("P", 0, None, False, None), "[nH]": ("N", 0, 1, True, None),
     "n(R)": ("N", 0, None, False, "R"), "[n+](R)": ("N", 1, 0, True, "R"), "[nH+]": ("N", 1, 1, True, None),
     "c(R)": ("C", 0, None, False, "R"), "c(=O)": ("C", 0, None, False, "=O"), "[pH]": ("P", 0, 1, True, None),
-    "p(R)": ("P", 0, None, False, "R"),
+    "p(R)": ("P", 0, None, False, "R"), "s(=O)": ("S", 0, None, False, "=O"), "p(=O)(R)": ("P", 0, None, False, "R=O"),
 }
 KINDS3_STANDARD = {"c": ("C", 0, None, False, None), "n": ("N", 0, None, False, None), "[n+]": ("N", 1, 0, True, None)}
 KINDS2_EXTENDED = {
@@ -24,7 +24,7 @@ KINDS2_EXTENDED = {
 }
 KINDS3_EXTENDED = {"b": ("B", 0, None, False, None), "[c-]": ("C", -1, 0, True, None), "[c+]": ("C", 1, 0, True, None),
                    "[si]": ("Si", 0, 0, True, None), "[b-]": ("B", -1, 0, True, None), "p": ("P", 0, None, False, None)}
-PI_FREE_2 = ["o", "s", "[nH]", "n(R)", "c(=O)", "[pH]"]
+PI_FREE_2 = ["o", "s", "[nH]", "n(R)", "c(=O)", "[pH]", "s(=O)", "p(=O)(R)"]
 
 
 # ------------------------------------------------------------------------------------------ topologies
@@ -208,10 +208,10 @@ def build(adj, kinds):
     for x in nodes:
         k = kinds[x]
         extra = (table3 if len(adj[x]) >= 3 and k in table3 else table2)[k][4]
-        if extra == "R":
+        if extra in ("R", "R=O"):
             j = m.add_atom("C", 4)
             m.add_bond(x, j, 1)
-        elif extra == "=O":
+        if extra in ("=O", "R=O"):
             j = m.add_atom("O", 2)
             m.add_bond(x, j, 2)
     return m
